@@ -52,14 +52,13 @@ Definition raw_class (k : case) : bool :=
 Definition ok_agree (k : case) : bool :=
   let c := k_cfg k in
   let pf := plt_free c (fns k) in
-  let balanced := no_range c && no_switch c (fns k) in
   let shown := map nt_n (o_chrome k) in
   let rp := map nd_n (o_replay k) in
   list_eqb nd_eqb (o_script k) (o_nomerge k)
   && (negb pf || list_eqb nd_eqb (o_replay k) (o_nomerge k))
   && (negb pf || list_eqb n_eqb (if no_range c then rp else rp ++ map (fun f => (true, f)) (open_stack rp [])) shown)
   && (negb (no_range c) || list_eqb N.eqb (report_of (k_nfun k) (map n_ev shown) []) (o_report k))
-  && (negb balanced || list_eqb tri_eqb (graph_of (map n_ev shown)) (o_graph k))
+  && list_eqb tri_eqb (graph_of (map n_ev shown)) (o_graph k)
   && (negb (raw_class k && no_range c) || list_eqb nt_eqb (map rt_nt (o_raw k)) (o_chrome k)).
 
 (* "selects the calls defined by the documented semantics" for the option class of the theorems *)
